@@ -933,6 +933,15 @@ class Interp:
             return l is r
         if t is ast.IsNot:
             return l is not r
+        from .values import OtherStr
+        if isinstance(l, OtherStr) or isinstance(r, OtherStr):
+            if t in (ast.Eq, ast.NotEq):
+                res = l.eq(r) if isinstance(l, OtherStr) else r.eq(l)
+                return (not res) if t is ast.NotEq else res
+            if t in (ast.In, ast.NotIn) and isinstance(l, OtherStr) and isinstance(r, (list, tuple, dict)):
+                res = any([l.eq(x) for x in (list(r))])
+                return (not res) if t is ast.NotIn else res
+            raise OutOfReach(f"{t.__name__} on an arbitrary string")
         if t in (ast.In, ast.NotIn):
             if isinstance(r, dict):
                 res = l in r
